@@ -334,7 +334,6 @@ def check_function(function, setup, call, clauses, *, mode, label="", bounded=Fa
     # optional CPython cross-check of the engine itself: every clause that was PROVED must also hold when the same
     # harness runs on the real code with real NumPy/SciPy at sampled inputs; a failure means the symbolic execution
     # (or a shim) misrepresents the code -- reported as undecided (exit 2), never as a verdict about the property
-    import os
     ncc = int(os.environ.get("RVERIF_CROSSCHECK", "0") or 0)
     if ncc and mode == "D" and replay is not None and out and all(o["status"] == "discharged" for o in out):
         hit = native_sampling(setup, call, clauses, allow_exc, n=ncc, seed=__import__("zlib").crc32(label.encode()) % 100000)
